@@ -305,7 +305,12 @@ def r02_3(ctx, fx):
             # Ready(Ok(0)) (which callers read as "write zero") only for an empty input
             zero = [n for n, sh in exits.items() if any(s == "Ready.Ok.const:0" for s in sh) and fn.const_value(_ret_payload(fn, n)) == 0 and _ret_payload(fn, n).get("k") is not None]
             ie = [c for c in fn.calls(r"slice::(<impl \[T\]>::)?is_empty$") if fn.origin(c.args[0]).lstrip("&").startswith("_3")]
-            ok = bool(ie) and all(any(fn.only_via(n, sw, [t]) for sw, t, f in fn.bool_tests(ie[0].dest[0])) for n in zero)
+            empty_edges = [(sw, t) for c in ie for sw, t, f in fn.bool_tests(c.dest[0])]
+            # .. or the same test spelled `buf.len() == 0`
+            is_blen = lambda f, o: any(l.dest[0] in slice_locals(f, o, strict=True) for l in f.calls(r"slice::(<impl \[T\]>::)?len$") if f.origin(l.args[0]).lstrip("&").startswith("_3"))
+            is_zero = lambda f, o: f.const_value(o) == 0 and "k" in o
+            empty_edges += [(sw, lab) for sw, lab, rel, cn in guards.edge_facts(fn, is_blen, is_zero) if rel == "=="]
+            ok = bool(empty_edges) and all(any(fn.only_via(n, sw, [t]) for sw, t in empty_edges) for n in zero)
             ctx.ob("R02.3", "poll_write/Ready(Ok(0))-only-for-empty-input", ok, site=fn.site(zero[0]) if zero else fn.site(fn.entry), cfg=fx.cfg,
                    detail="Ok(0) exits: %s" % [fn.site(n) for n in zero])
             # Pending only when nothing was accepted
@@ -421,7 +426,9 @@ def r02_5(ctx, fx):
             seen[which] = k + 1
             ctx.ob("R02.5", "NoiseSocket::new/product#%d-of-%s-takes-a-positive-factor" % (k, which), positive(fn, fx, o), site=fn.site(node), cfg=fx.cfg,
                    detail="a configured factor of 0 gives an empty buffer / window: writes hang in Pending without a waker")
-    ctx.anchor("R02.5", "NoiseSocket::new: products with a configured factor", n, 4, cfg=fx.cfg)
+    # (how often a product is written out is a matter of style - `let canonical_max_read = factor * MAX` once, or three times inline;
+    # what must be there is a product for each of the two configured factors)
+    ctx.anchor("R02.5", "NoiseSocket::new: configured factors that size a buffer by a product", len([w for w in seen if "+" not in w]), 2, cfg=fx.cfg)
 
 
 def r02_6(ctx, fx):
